@@ -241,6 +241,7 @@ void World::s_read(StreamState& s, std::vector<asio::mutable_buffer> bufs, IoHan
     ConnPtr c = s.conn;
     if (!c || c->st == Conn::closed || c->st == Conn::connecting) { post_handler(s.ex, std::move(hnd), error_code(ae::not_connected), size_t(0)); return; }
     if (c->p_read) { post_handler(s.ex, std::move(hnd), error_code(ae::already_started), size_t(0)); log(Ev::note, c->id, -1, 0, "second read while one is pending"); return; }
+    establish_if_due(c);
     log(Ev::read_begin, c->id, -1, (int64_t)cap);
     if (!crec(c).established)
         for (auto& o : conns_)
@@ -298,6 +299,7 @@ void World::s_write(StreamState& s, std::string bytes, IoHandler hnd) {
     namespace ae = asio::error;
     ConnPtr c = s.conn;
     if (!c || c->st == Conn::closed || c->st == Conn::connecting) { post_handler(s.ex, std::move(hnd), error_code(ae::not_connected), size_t(0)); return; }
+    establish_if_due(c);
     // record the batch and its packets as offered to the transport
     WireWrite w; w.id = (int)h.writes.size(); w.conn = c->id; w.seq_begin = next_seq(); w.t_begin = now(); w.bytes = bytes.size();
     w.offset = c->c2b_sent; w.during_handshake = !crec(c).established;
@@ -545,6 +547,10 @@ void World::on_log_resolve(error_code ec, std::string host, std::string port, in
 void World::on_log_tcp(error_code ec, const asio::ip::tcp::endpoint& ep) {
     log(Ev::log_tcp, -1, -1, 0, ep.address().to_string() + ":" + std::to_string(ep.port()) + " " + ec_name(ec));
 }
+void World::establish_if_due(const ConnPtr& c) {
+    auto& r = crec(c);
+    if (r.connack_ok_logged && !r.established) { r.established = true; r.t_established = now(); r.seq_established = next_seq(); }
+}
 void World::on_log_connack(uint8_t rc, bool session_present) {
     // attribute to the connection whose CONNACK bytes were read last
     int cid = -1; uint64_t best = 0;
@@ -554,10 +560,9 @@ void World::on_log_connack(uint8_t rc, bool session_present) {
     if (cid < 0)
         for (auto it = h.ev.rbegin(); it != h.ev.rend(); ++it) if (it->kind == Ev::read_end && it->a >= 0) { cid = it->a; break; }
     log(Ev::log_connack, cid, rc, session_present ? 1 : 0);
-    if (cid >= 0 && rc == 0) {
-        auto& r = h.conns[cid];
-        if (!r.established) { r.established = true; r.t_established = now(); r.seq_established = next_seq(); }
-    }
+    // established once the client goes on to use the connection (first read / write after this point): with enhanced
+    // authentication the handshake can still be abandoned when the authenticator rejects the Server's final data
+    if (cid >= 0 && rc == 0) h.conns[cid].connack_ok_logged = true;
 }
 void World::on_log_disconnect(uint8_t rc) { log(Ev::log_disconnect, -1, rc); }
 
